@@ -7,6 +7,10 @@ LEVEL = 'model_checking'
 def run(ctx):
     ctx.assumptions = ['x/net Framer/hpack is the independent server peer', 'client loop hooks (verif build tag) give quiescence',
                        'request/response bodies are fixed functions of (request, offset)']
+    # goroutine-level model of the wake-up token between the read loop (grants) and the write loop (passes over the waiting
+    # bodies); the code side is the grant-during-read scenario family
+    ctx.model_check('CliWinToken', 'CliWinToken.cfg', workers=2)
+    ctx.model_expect_violation('CliWinToken', 'CliWinToken_bad.cfg', 'NoLostGrant', workers=2)
     cliprop.run(ctx, 'C07')
 
 
